@@ -402,6 +402,47 @@ def structWF (m : Module) (sd : StructDef) : Bool :=
 def moduleWF (m : Module) : Bool :=
   m.structs.all (structWF m)
 
+/-! `moduleWF` split into the part the front end enforces and the part it does not
+(`C01_moduleWF_iff`).  Both are printed by the driver for every real IR. -/
+
+/-- the field of a byte structure holds a bit-addressed type (prelude scalar, enum, `bits`):
+its size expression and the type's size in bits -/
+def fixedBitsIn (m : Module) (unit : Nat) (f : Field) : Option (Expr × Nat) :=
+  match f.kind with
+  | .phys _ size (.scalar _ bits _) _ => if unit = 8 then some (size, bits) else none
+  | .phys _ size (.struct name bits _) _ =>
+    if unit = 8 then
+      (match m.find name with
+       | some sd => if sd.unit = 8 then none else some (size, bits)
+       | none => none)
+    else none
+  | _ => none
+
+/-- no fixed-size bit-addressed type sits in a field whose size is not a compile-time constant —
+**not** enforced by the front end (open finding
+`monotone:fixed-size-type-in-dynamically-sized-field`) -/
+def fieldNoDynFixed (m : Module) (unit : Nat) (f : Field) : Bool :=
+  match fixedBitsIn m unit f with
+  | some (size, _) => (constInt? size).isSome
+  | none => true
+
+/-- a *constant-size* field holding a fixed-size bit-addressed type has exactly the type's size —
+what `constraints.py` enforces ("fixed-size type … cannot be placed in field of size …";
+C14's model: `fixedWrongField`) -/
+def fieldConstMatch (m : Module) (unit : Nat) (f : Field) : Bool :=
+  match fixedBitsIn m unit f with
+  | some (size, bits) =>
+    (match constInt? size with
+     | some s => decide (0 ≤ s) && s.toNat * 8 == bits
+     | none => true)
+  | none => true
+
+def moduleNoDynFixed (m : Module) : Bool :=
+  m.structs.all (fun sd => sd.fields.all (fieldNoDynFixed m sd.unit))
+
+def moduleConstMatch (m : Module) : Bool :=
+  m.structs.all (fun sd => sd.fields.all (fieldConstMatch m sd.unit))
+
 /-- fragment of `C01_ok_monotone_partial`: no array-typed fields -/
 def fieldNoArray (f : Field) : Bool :=
   match f.kind with
